@@ -14,6 +14,7 @@ import (
 	"time"
 
 	"git.metabarcoding.org/obitools/obitools4/obitools4/pkg/obialign"
+	"git.metabarcoding.org/obitools/obitools4/obitools4/pkg/obiiter"
 	"git.metabarcoding.org/obitools/obitools4/obitools4/pkg/obikmer"
 	"git.metabarcoding.org/obitools/obitools4/obitools4/pkg/obiseq"
 	"git.metabarcoding.org/obitools/obitools4/obitools4/pkg/obitax"
@@ -63,8 +64,13 @@ type c15obs struct {
 	IdxKind []string         `json:"idxkind,omitempty"`
 	Taxid   int              `json:"taxid"`  // taxid written by Identify (indices built lazily by Identify)
 	Taxid2  int              `json:"taxid2"` // same, database indexed beforehand (index stored as read back from a file: string keys)
-	IdKind  string           `json:"idkind,omitempty"`
-	IdErr   string           `json:"iderr,omitempty"`
+	// taxid / best match written by obitag.CLIAssignTaxonomy (the loader of the command: 4-mer tables, taxa, and the
+	// references whose taxid is unknown to the taxonomy discarded) on the same database + one such reference
+	Taxid3  int    `json:"taxid3"`
+	Best3   string `json:"best3,omitempty"`
+	CliKind string `json:"clikind,omitempty"`
+	IdKind  string `json:"idkind,omitempty"`
+	IdErr   string `json:"iderr,omitempty"`
 }
 
 func c15seq(id, s string, taxid int) *obiseq.BioSequence {
@@ -376,9 +382,47 @@ func c15run(c c15case) (o c15obs) {
 			o.IdKind, o.IdErr = k3, "pre-indexed database: "+e3
 		}
 	}
+	if c.Index && len(refs) >= 2 {
+		o.Taxid3, o.Best3, o.CliKind = c15cli(c, taxo)
+	}
 	o.KOk = bad == ""
 	o.KBad = bad
 	return o
+}
+
+// c15cli runs the query through obitag.CLIAssignTaxonomy on the references of the case with, inserted in the middle,
+// one more reference (a copy of the query: it would be THE best match) whose taxid the taxonomy does not know.
+func c15cli(c c15case, taxo *obitax.Taxonomy) (taxid int, best string, kind string) {
+	taxid, kind = -1, "ok"
+	if c15guard(func() {
+		defer func() {
+			if r := recover(); r != nil {
+				kind = "panic: " + fmt.Sprint(r)
+			}
+		}()
+		refs := obiseq.MakeBioSequenceSlice()
+		at := len(c.Refs) / 2
+		for i, s := range c.Refs {
+			if i == at {
+				refs = append(refs, c15seq("unknown_taxid", c.Q, 987654321))
+			}
+			refs = append(refs, c15seq("r"+strconv.Itoa(i), s, c.Taxids[i]))
+		}
+		q := c15seq("q", c.Q, 1)
+		it := obiiter.IBatchOver("c15", obiseq.BioSequenceSlice{q}, 10)
+		out := obitag.CLIAssignTaxonomy(it, refs, taxo)
+		for out.Next() {
+			for _, s := range out.Get().Slice() {
+				taxid = s.Taxid()
+				if b, ok := s.GetStringAttribute("obitag_bestmatch"); ok {
+					best = b
+				}
+			}
+		}
+	}) {
+		return -1, "", "timeout"
+	}
+	return taxid, best, kind
 }
 
 func init() {
